@@ -419,6 +419,11 @@ DITI_EMITTERS = [
     ("commit", [], {}),
     ("set_diti_unchecked", [], {}),
     ("evo_wash", [], {"tips": [1], "waste_location": (52, 2), "cleaner_location": (52, 1)}),
+    # text fields that end in a capital B / contain "B;"-like fragments: only a break *record* permits a switch
+    ("aspirate_well", ["PlateB", 1, 10], {"liquid_class": "Buffer_B"}),
+    ("dispense_well", ["P", 2, 10], {"rack_id": "0042B", "rack_type": "B"}),
+    ("reagent_distribution", ["TroughB", 1, 8, "B", 1, 12], {"volume": 10, "liquid_class": "B"}),
+    ("comment", ["B"], {}),
     # the worklist is a list: records merged in or taken out through plain list methods
     ("list:extend", [["C;merged", "A;P;;;1;;10.00;;;;"]], {}),
     ("list:extend", [["D;P;;;1;;10.00;;;;", "W1;", "B;"]], {}),
